@@ -14,7 +14,7 @@ var wordPool = []string{
 	"hello", "world", "a", "=", "==", "=3D", "=20", "=\r\n", "café", "日本語", "\U0001F600", ".", "..", "...",
 	"From ", "--", "--x", "----boundary", "--=_NextPart", "x y", "\t", " ", "  ", "=?UTF-8?q?x?=", "<html>", "</p>",
 	"0123456789", "The quick brown fox jumps over the lazy dog", ";", ":", "\"", "\\", "_", "?", "?=", "=?",
-	"%s", "%d%%", "{{.}}", "<script>", "&amp;", "\x00",
+	"%s", "%d%%", "{{.}}", "<script>", "&amp;", "\x00", "\ufeff", "\ufeffBOM first",
 }
 
 // lineGen draws one line of text (no line terminator).
@@ -66,6 +66,9 @@ func TextContent(t *rapid.T, label string, allowLF, allowCR bool) []byte {
 	n := rapid.IntRange(1, 8).Draw(t, label+"-nlines")
 	mode := rapid.IntRange(0, 3).Draw(t, label+"-brk") // 0 CRLF, 1 LF, 2 mixed, 3 mixed incl. CR
 	var buf bytes.Buffer
+	if rapid.IntRange(0, 14).Draw(t, label+"-bom") == 0 {
+		buf.WriteString("\ufeff") // text saved by a Windows editor: the byte order mark is content
+	}
 	for i := 0; i < n; i++ {
 		buf.WriteString(lineGen(t))
 		last := i == n-1
